@@ -605,7 +605,7 @@ Lemma classify_ew : forall t c st t' c',
     step_type t st = Some t' /\ c' = c.
 Proof.
   intros t c st t' c' Hew H.
-  destruct st as [f|p|g|f| |f|p|f|p|f|n b|n b| |cb|cb|cb lf fo| | |k| |k rs rd|sd h|sd q|prs dflt|f p];
+  destruct st as [f|p|g|f| |f|p|f|p|f|n b|n b| |cb|cb|cb lf fo| | |k| |k rs rd|sd h|sd q|prs dflt|f p|dk|f];
     try discriminate Hew; cbn [classify_step step_type] in *;
     try (inversion H; subst; split; reflexivity);
     try (destruct (Nat.eqb t TKV); [inversion H; subst; split; reflexivity|discriminate H]);
@@ -636,7 +636,7 @@ Proof.
       * cbn [tags_ok]. rewrite Hin, Nat.eqb_refl, Hout. reflexivity.
     + intros rows. cbn [dnode]. unfold sem_ops. cbn [fold_left]. unfold step_list.
       rewrite (cop_fn _ _ st rows Hew). reflexivity.
-  - destruct st as [f|p|g|f| |f|p|f|p|f|n b|n b| |cb|cb|cb lf fo| | |k| |k rs rd|sd h|sd q|prs dflt|f p];
+  - destruct st as [f|p|g|f| |f|p|f|p|f|n b|n b| |cb|cb|cb lf fo| | |k| |k rs rd|sd h|sd q|prs dflt|f p|dk|f];
       try discriminate Hew; cbn [classify_step] in H; try discriminate H.
     + (* SMapBatches with a non element-wise function *)
       destruct b; try discriminate Hew; discriminate H.
